@@ -1,3 +1,4 @@
+import YkModel.Reload
 /-
   Placement of applications (C17): executable model of
     pkg/common/security/acl.go           NewACL / CheckAccess
@@ -133,6 +134,12 @@ structure Queue where
   tpl : Str := []
   /-- canonical text of the queue's own template-controlled settings ([] = blank queue) -/
   cfg : Str := []
+  /-- the properties of the child template (what applyTemplate copies into the properties of a new leaf) -/
+  tplProps : Reload.Props := []
+  /-- the effective settings UpdateQueueProperties derives from the queue's properties: sort policy, priority sort /
+      policy / offset, preemption policy / delay, quota preemption delay, ask backoff (Yk.Reload.deriveSettings, the
+      derivation of the C16 model) -/
+  set : Reload.Settings := Reload.deriveSettings leaf []
 deriving Repr, DecidableEq
 
 abbrev Tree := List Queue
@@ -365,11 +372,17 @@ def yields (t : Tree) (res : RuleRes) (last : Bool) : Option QName :=
   | .queue n => some n
   | _ => if last && (getQueue t defaultQ).isSome then some defaultQ else none
 
+/-- strings.HasPrefix(strings.ToLower(name), "root.@recovery@."): the first two parts spell the recovery queue and there
+    is a third part -/
+def belowRecovery (n : QName) : Bool := recoveryQ.isPrefixOf (lowerName n) && decide (3 ≤ n.length)
+
 /-- the checks of the loop body on a queue name: `some true` = place here, `some false` = next rule, `none` = panic -/
 def eligible (t : Tree) (a : App) (n : QName) : Option Bool :=
   if decide (n = recoveryQ) && a.forced then some true
   -- the recovery queue, in any capitalisation, is reserved for forced applications: no match
   else if isRecoveryName n && !a.forced then some false
+  -- nothing can be placed or created below the recovery queue (any capitalisation): no match
+  else if belowRecovery n then some false
   else match getQueue t n with
     | none =>
       match walkUp t n with
@@ -417,10 +430,24 @@ inductive Outcome where
   | panic
 deriving Repr, DecidableEq
 
-/-- newDynamicQueueInternal + addChildQueue: a new leaf gets the parent's template applied, a new parent inherits it -/
+/-- UpdateQueueProperties on a dynamic queue whose properties are `props`: the conversion of the C16 model
+    (`Yk.Reload.deriveSettings`); for a queue on the recovery queue path it returns early — sort policy fifo, nothing
+    converted (the other settings keep the values of a blank queue) -/
+def dynSettings (path : QName) (leaf : Bool) (props : Reload.Props) : Reload.Settings :=
+  if path = recoveryQ then { Reload.deriveSettings leaf [] with sort := "fifo" } else Reload.deriveSettings leaf props
+
+/-- newDynamicQueueInternal: addChildQueue first — a new leaf gets the parent's template applied (its properties become
+    the template's: a dynamic queue does not merge the parent's own properties), a new parent inherits the template —
+    and only then UpdateQueueProperties converts the properties into the effective settings -/
 def newDynamic (parent : Queue) (name : Str) (leaf : Bool) : Queue :=
   { path := parent.path ++ [lower name], leaf := leaf, managed := false, draining := false, sacl := {}, aacl := {},
-    tpl := if leaf then [] else parent.tpl, cfg := if leaf then parent.tpl else [] }
+    tpl := if leaf then [] else parent.tpl, cfg := if leaf then parent.tpl else [],
+    tplProps := if leaf then [] else parent.tplProps,
+    set := dynSettings (parent.path ++ [lower name]) leaf (if leaf then parent.tplProps else []) }
+
+/-- NewRecoveryQueue under root: the template of root is applied like for any dynamic leaf; its path is the recovery
+    queue path, so nothing is converted -/
+def newRecovery (root : Queue) : Queue := newDynamic root sRecovery true
 
 /-- the creation loop of createQueue: NewDynamicQueue for every missing part, top down; queues created before a
     failure stay -/
@@ -450,7 +477,7 @@ def createRecovery (t : Tree) : Tree × Except Reason Queue :=
   | some root =>
     if root.leaf then (t, .error .createParentLeaf)
     else if root.draining then (t, .error .createDraining)
-    else (t ++ [newDynamic root sRecovery true], .ok (newDynamic root sRecovery true))
+    else (t ++ [newRecovery root], .ok (newRecovery root))
 
 /-- PartitionContext.AddApplication (placement, queue creation, leaf check) -/
 def addApp (rx : Str → Str → Bool) (t : Tree) (rules : List Rule) (a : App) : Tree × Outcome :=
